@@ -481,7 +481,7 @@ theorem C19_cdf_sorted {F : Type} (lt : F → F → Bool) (L : LtLaws lt) (refl 
 
 /-- `C19_numpy_choice_never_zero` with the sortedness discharged: for non-negative probabilities (which `choice`
 enforces) no hypothesis about the cdf is left. -/
-theorem C19_numpy_choice_never_zero' {F : Type} (lt : F → F → Bool) (L : LtLaws lt) (refl : ∀ x, lt x x = false)
+theorem C19_numpy_choice_never_zero_nonneg {F : Type} (lt : F → F → Bool) (L : LtLaws lt) (refl : ∀ x, lt x x = false)
     (add div : F → F → F) (zero : F)
     (add_zero : ∀ x, add x zero = x) (zero_div : ∀ x, div zero x = zero)
     (add_mono : ∀ x w, lt w zero = false → lt (add x w) x = false)
@@ -496,12 +496,115 @@ theorem C19_numpy_choice_never_zero' {F : Type} (lt : F → F → Bool) (L : LtL
 example : ∀ (ws : List Nat) (u i : Nat), ws[i]? = some 0 →
     searchsortedRight (fun a b => decide (a < b)) (cdfNp (· + ·) (fun a _ => a) ws) u ≠ i := by
   intro ws u i hi
-  refine C19_numpy_choice_never_zero' (fun a b => decide (a < b)) ⟨?_, ?_⟩ (by simp) (· + ·) (fun a _ => a) 0
+  refine C19_numpy_choice_never_zero_nonneg (fun a b => decide (a < b)) ⟨?_, ?_⟩ (by simp) (· + ·) (fun a _ => a) 0
     (by simp) (by simp) ?_ ?_ ws (by simp) u (by simp) i hi
   · intro x y z h1 h2; simp at h1 h2 ⊢; omega
   · intro x y z h1 h2; simp at h1 h2 ⊢; omega
   · intro x w _; simp
   · intro x y d h; simpa using h
 
+
+/-! ## 25. PeriodicAgent / DataManipulationAgent: the action and its parameters come from the configuration -/
+
+theorem render_execute (c : PeriodicCfg) (n : Nat) (h : n < c.nStartNodes) :
+    ∃ v, c.nodes[n]? = some v ∧ v ∈ c.nodes ∧
+      (PeriodicOut.execute n).render c =
+        some ("node-application-execute", [("node_name", v), ("application_name", c.app)]) := by
+  have hn : n < c.nodes.length := h
+  exact ⟨c.nodes[n], List.getElem?_eq_getElem hn, List.getElem_mem hn, by simp [PeriodicOut.render, hn]⟩
+
+/-- Every output of the model is do-nothing, an exception, or an `execute`. -/
+theorem periodicOut_cases (o : PeriodicOut) : o = .doNothing ∨ o = .raised ∨ ∃ n, o = .execute n := by
+  cases o
+  · exact Or.inl rfl
+  · exact Or.inr (Or.inr ⟨_, rfl⟩)
+  · exact Or.inr (Or.inl rfl)
+
+/-- **Only from its configured start nodes, only the configured application (PeriodicAgent, run level).**  In every run from
+the constructor — any settings the validator accepts, any draws, any length — every action the agent returns other than
+do-nothing is `node-application-execute` with `application_name` = the configured `target_application` and `node_name` = an
+element of `possible_start_nodes` (the one `random.choice` drew when `start_node` was first read), the same node in every
+action of the run. -/
+theorem C19_periodic_params_from_config (c : PeriodicCfg) (d0 : Int) (s0 : PeriodicState) (ins : List PIn)
+    (h0 : periodicInit c d0 = some s0) :
+    ∃ v, (∀ n, .execute n ∈ runFrom (periodicStep c) s0 0 ins →
+        v ∈ c.nodes ∧ c.nodes[n]? = some v ∧
+        (PeriodicOut.execute n).render c =
+          some ("node-application-execute", [("node_name", v), ("application_name", c.app)])) := by
+  by_cases hex : ∃ n, PeriodicOut.execute n ∈ runFrom (periodicStep c) s0 0 ins
+  · obtain ⟨n, hn⟩ := hex
+    obtain ⟨hlt, hsame⟩ := C19_periodic_action_node c d0 s0 ins h0 n hn
+    obtain ⟨v, hv, hmem, hr⟩ := render_execute c n hlt
+    refine ⟨v, fun n' hn' => ?_⟩
+    rw [hsame n' hn']
+    exact ⟨hmem, hv, hr⟩
+  · exact ⟨"", fun n hn => absurd ⟨n, hn⟩ hex⟩
+
+/-- The same for the DataManipulationAgent (`target_application` defaults to `data-manipulation-bot`: `C19_gen_periodic_params`). -/
+theorem C19_dm_params_from_config (c : PeriodicCfg) (s0 : PeriodicState) (ins : List PIn) (h0 : dmInit c = some s0) :
+    ∃ v, (∀ n, .execute n ∈ runFrom (dmStep c) s0 0 ins →
+        v ∈ c.nodes ∧ c.nodes[n]? = some v ∧
+        (PeriodicOut.execute n).render c =
+          some ("node-application-execute", [("node_name", v), ("application_name", c.app)])) := by
+  by_cases hex : ∃ n, PeriodicOut.execute n ∈ runFrom (dmStep c) s0 0 ins
+  · obtain ⟨n, hn⟩ := hex
+    obtain ⟨hlt, hsame⟩ := C19_dm_action_node c s0 ins h0 n hn
+    obtain ⟨v, hv, hmem, hr⟩ := render_execute c n hlt
+    refine ⟨v, fun n' hn' => ?_⟩
+    rw [hsame n' hn']
+    exact ⟨hmem, hv, hr⟩
+  · exact ⟨"", fun n hn => absurd ⟨n, hn⟩ hex⟩
+
+/-- Non-vacuity: three nodes, the draw picks the third; application `web-browser`. -/
+example :
+    let c : PeriodicCfg := { startStep := 1, startVariance := 0, frequency := 2, variance := 0, maxExecutions := 2,
+                             nodes := ["cl-a", "cl-b", "cl-c"], app := "web-browser" }
+    ∃ s0, periodicInit c 0 = some s0 ∧
+      ((runFrom (periodicStep c) s0 0 ((List.range 6).map fun _ => ({ d := 0, k := 2 } : PIn))).map (·.render c))
+        = [some ("do-nothing", []), some ("node-application-execute", [("node_name", "cl-c"), ("application_name", "web-browser")]),
+           some ("do-nothing", []), some ("node-application-execute", [("node_name", "cl-c"), ("application_name", "web-browser")]),
+           some ("do-nothing", []), some ("do-nothing", [])] := by
+  refine ⟨_, rfl, ?_⟩; decide
+
+/-- The dictionary both `get_action`s return, the body of the cached `start_node` property and the data-manipulation
+agent's default application are the ones the model renders. -/
+theorem C19_gen_periodic_params :
+    Gen.Agents.periodicActionParams = periodicActionParams ∧ Gen.Agents.dmActionParams = periodicActionParams ∧
+    Gen.Agents.periodicStartNode = periodicStartNode ∧ Gen.Agents.dmDefaultApplication = dmDefaultApplication := ⟨rfl, rfl, rfl, rfl⟩
+
+/-- TAP003's load-time check of the network knowledge and the knowledge update after a local password change have the
+shape the model has (`Tap3.Cfg.knowledgeOk`, `Tap3.handleChangePw`): repairs of F-C19-5 and F-C19-6. -/
+theorem C19_gen_tap3_knowledge : Gen.Agents.tap3Knowledge = tap3Knowledge := rfl
+
+/-- What the validator guarantees of a constructed TAP003: every account-change host and every ACL router has an entry in
+the starting knowledge, with an address for every router and for every host that is not the only possible start node. -/
+theorem C19_tap3_constructed_knowledge (c : Tap3.Cfg) (d0 : Int) (k : Nat) (s0 : Tap3.St) (h0 : Tap3.init c d0 k = some s0) :
+    (∀ a ∈ c.acls, ∃ cr, c.creds0.get a.router = some cr ∧ cr.ip.isSome = true) ∧
+    (∀ a ∈ c.accountChanges, ∃ cr, c.creds0.get a.host = some cr ∧
+      (cr.ip.isSome = true ∨ ∀ n ∈ c.startSet, n = a.host)) := by
+  unfold Tap3.init at h0
+  split at h0
+  · rename_i hv
+    have hk := hv.2.2
+    unfold Tap3.Cfg.knowledgeOk at hk
+    simp only [Bool.and_eq_true, List.all_eq_true] at hk
+    refine ⟨fun a ha => ?_, fun a ha => ?_⟩
+    · have := hk.2 a ha
+      unfold Tap3.Cfg.knows at this
+      cases hg : c.creds0.get a.router with
+      | none => rw [hg] at this; cases this
+      | some cr => rw [hg] at this; exact ⟨cr, rfl, by simpa using this⟩
+    · have := hk.1 a ha
+      unfold Tap3.Cfg.knows at this
+      cases hg : c.creds0.get a.host with
+      | none => rw [hg] at this; cases this
+      | some cr =>
+        rw [hg] at this
+        refine ⟨cr, rfl, ?_⟩
+        simp only [Bool.or_eq_true, Bool.not_eq_true', Bool.not_eq_false', List.all_eq_true, beq_iff_eq] at this
+        rcases this with h | h
+        · exact Or.inr h
+        · exact Or.inl h
+  · cases h0
 
 end Primaite.Agents
